@@ -438,11 +438,20 @@ pub fn make_case(ctx: &ShardCtx, i: u64) -> Case {
     }
     // pairs of stanzas with the *same query shape* on the same node: their matches are met in
     // stanza order, so every permutation really is another schedule
-    if r.chance(1, 8) {
+    if r.chance(1, 6) {
         while stanzas.len() > 3usize.max(protected) {
             stanzas.pop();
         }
-        match r.below(3) {
+        match r.below(4) {
+            3 => {
+                // the same variable defined twice on one node, once through a capture and once
+                // through a local holding the node: a duplicate in every order
+                stanzas.push(st("(module) @da", vec![Stmt::Let(VarRef::Scoped(cap("da"), "dup".into()), Expr::Str("capture".into()))]));
+                stanzas.push(st(
+                    "(module) @db",
+                    vec![Stmt::Let(VarRef::Local("loc".into()), cap("db")), Stmt::Let(VarRef::Scoped(Expr::Var("loc".into()), "dup".into()), Expr::Str("local".into()))],
+                ));
+            }
             0 | 1 => {
                 // two different values for one attribute of one node (one of them #null, or two
                 // lists): a conflict, hence a failure, in every order
